@@ -40,7 +40,9 @@ def content_sequences(ctx, prog, ex, K, VAL, kinds):
     npaths = 0
     for kind in kinds:
         a, b = z3.BitVec('chan_a', 16), z3.BitVec('chan_b', 16)
-        st, w = build_steady(prog, [('A', a, {'consumers': 1}), ('B', b, {'consumers': 1})])
+        # writes may already be sealed (the client's own Connection.Close is queued and its CloseOk not yet here): inbound content is
+        # still delivered until the connection is over
+        st, w = build_steady(prog, [('A', a, {'consumers': 1}), ('B', b, {'consumers': 1})], sealed=sym('sealed0', z3.BoolSort()))
         meth = {'Delivery': 'Deliver', 'Return': 'Return', 'Get': 'GetOk'}[kind]
         fs0 = FrameSym(prog, 'start')
         st.pc += [fs0.is_method('Basic', meth), fs0.chan('Method') == a]
